@@ -163,7 +163,9 @@ func gwProjects(c *core.Ctx, n, years int, salt int64) []*gen.Project {
 			for k := range p.Soil.Horizons {
 				p.Soil.Horizons[k].Texture = []string{"SS", "SM", "SF", "SL2", "SU2", "SG"}[r.Intn(6)]
 				p.Soil.Horizons[k].Corg100 = 120 + r.Intn(300)
-				p.Soil.Horizons[k].StonePct = 0
+				if p.Soil.Horizons[k].StonePct == 0 {
+					p.Soil.Horizons[k].StonePct = 5 + 5*r.Intn(6) // the table route with stones under a moving table stays covered
+				}
 			}
 			p.GWHigh = 1 + r.Intn(4)
 			p.GWLow = p.GWHigh + 6 + r.Intn(10)
